@@ -6,16 +6,16 @@ import (
 
 // avoidWhileKnown: generator features left out of the C14 domain.
 //
-//   - multiembed, string-on-marshaler, shared-ptr-recv: the three recorded C01
-//     defects (KF-C01-001..003); their effect on the bytes is the same under
-//     every flag setting, so they are C01's subject and are avoided here while
-//     they are listed as known there.
 //   - string-on-string: a string field with the ",string" option contains JSON
 //     text inside a JSON string; EscapeHTML legitimately changes that inner
-//     text (\u0026 vs &) in encoding/json too, so the "same generic value"
+//     text (\\u0026 vs &) in encoding/json too, so the "same generic value"
 //     relation is not defined for it (see DESIGN.md, corrections).
+//
+// (The C01 defects that used to be avoided here - embedded depth dominance,
+// string option on marshalers, struct codec shared across addressability -
+// are repaired, so their shapes are generated again.)
 func avoidWhileKnown() []string {
-	return []string{"multiembed", "string-on-marshaler", "shared-ptr-recv", "string-on-string", "@SE4", "@Wide"}
+	return []string{"string-on-string"}
 }
 
 func knownClass(c Case, f *evid.Failure) string { return "" }
